@@ -32,11 +32,12 @@ def dag_of(name: str, is_async: bool):
 
 DAGS = ["linear", "diamond", "setup"]
 MENU = ["call(a1,a2)", "call(a5)", "call(a1,BAD)", "call()", "e=executor()", "e=executor(T=[n1])", "e(a1,a2)", "e(a1,BAD)",
-        "compose+call", "config same", "config changed", "deepcopy"]
+        "compose+call", "config same", "config changed", "deepcopy", "setup()", "setup(T=[last])"]
 
 
 def cases(tier: str):
     q = tier == "quick"
+    yield dict(special="setup_arg", dag="setup", is_async=False, hist=[])
     for depth in ((0, 1, 2, 3) if q else (0, 1, 2, 3, 4)):
         for name in DAGS:
             for is_async in (False, True):
@@ -56,8 +57,50 @@ def results_ok(acc, c, names, inst, base_keys):
         acc.violation(V("dag_results_grew", f"history {names}: dag.results gained {sorted(extra - setup_ids)} (only setup results may be kept)"), dict(c, history=names))
 
 
+SETUP_ARG_SRC = '''
+from tawazi import xn, dag
+import twzmc.harness as H
+@xn(setup=True)
+def load(*a, **k):
+    return H.node_body("load", a, k)
+@xn
+def use(*a, **k):
+    return H.node_body("use", a, k)
+@dag
+def pipe(flag, name="base"):
+    m = load({args})
+    return use(m)
+'''
+
+
+def setup_arg_case(acc, c):
+    """state kept between calls is limited to setup results, and those may not depend on call arguments: a setup node fed by a
+    DAG argument (positional, keyword, indexed, as activation flag, defaulted or required) is refused when the DAG is built"""
+    from tawazi.errors import TawaziBaseException
+
+    from ..build import exec_source
+    acc.cases += 1
+    for args in ("flag", "name", "x=flag", "x=name", "flag[0]", "twz_active=flag", "twz_active=name", "1, twz_active=flag"):
+        src = SETUP_ARG_SRC.format(args=args)
+        acc.evaluations += 1
+        acc.mark_nontrivial(("setup_arg", args))
+        try:
+            ns = exec_source(src)
+        except (TawaziBaseException, ValueError):
+            continue
+        # accepted: show the leak - the first call decides for all later ones
+        d = ns["pipe"]
+        r1 = H.run_controlled(lambda: d(False))
+        r2 = H.run_controlled(lambda: d(True))
+        acc.violation(V("setup_depends_on_argument", f"a setup node called as load({args}) with a DAG argument was accepted at build; pipe(False) -> {r1.value!r}, then pipe(True) -> {r2.value!r}",
+                        form=args), dict(c, args=args), (), r2.trace, src)
+
+
 def run_hist(acc, c):
     from tawazi.errors import TawaziUsageError
+
+    if c.get("special") == "setup_arg":
+        return setup_arg_case(acc, c)
 
     p, fidx = dag_of(c["dag"], c["is_async"])
     ids = p.ids()
@@ -143,6 +186,9 @@ def run_hist(acc, c):
             if original is None:
                 original = inst
             inst = inst.clone()
+        elif k in (12, 13):
+            # setup() / setup(target_nodes=[last node]): runs the needed setup nodes only - never a non-setup node, whatever its depth
+            run_op(acc, c, names, inst, "setup", None if k == 12 else {"T": [len(ids) - 1]}, ())
         results_ok(acc, c, names, inst, base_keys)
     # probes
     run_op(acc, c, names + ["probe call(p3)"], inst, "call", None, ("p3",))
@@ -176,5 +222,5 @@ def replay(v):
     from ..acc import Acc
     a = Acc(ID, 0, 1, 600)
     c = v["case"]
-    run_hist(a, {k: c[k] for k in ("dag", "is_async", "hist")})
+    run_hist(a, {k: c[k] for k in ("dag", "is_async", "hist", "special") if k in c})
     return a.violations, None
